@@ -118,6 +118,29 @@ func init() {
 		return nil, ctlRet
 	}
 	z("RaceMonitor", func(c *callCtx) (Value, ctl) { c.p.eraser = true; return nil, ctlRet })
+	z("WaitGhostNe", func(c *callCtx) (Value, ctl) {
+		p := c.p
+		key := "g:" + p.ghostKey(c.args[0]) + ":" + p.asStr(c.args[1]).s
+		old := p.asTerm(c.args[2])
+		cur := func() *Term {
+			if v, ok := p.ghost[key]; ok {
+				return p.asTerm(v.(Value))
+			}
+			return p.tc().BV(0, 64)
+		}
+		differs := func() bool {
+			a, b := cur(), old
+			if !a.IsConst() || !b.IsConst() {
+				panic(unsupportedf("WaitGhostNe on a symbolic ghost value"))
+			}
+			return a.Val != b.Val
+		}
+		if differs() {
+			return nil, ctlRet
+		}
+		p.block(c.th, differs, "condition variable")
+		return nil, ctlBlock
+	})
 	z("Native", func(c *callCtx) (Value, ctl) { return c.p.tc().False, ctlRet })
 	z("NativeUnsupported", func(c *callCtx) (Value, ctl) { return nil, ctlRet })
 	z("Replace", replaceFn)
